@@ -551,6 +551,9 @@ def gen_action(h, d, pfx, pools):
     rows = d.row_ids(t)[:2]
     v1 = _val(h.choice(pfx + "val", pools.vals), d, t, c, rows[0] if rows else None)
     v2 = _val(h.choice(pfx + "val2", Pools.SMALL["vals"]), d, t, c, rows[-1] if rows else None)
+    if rows and h.bool(pfx + "repeat"):
+      # a row id named twice in one bulk update (clients and internal doc actions do this): the later value wins
+      return ["BulkUpdateRecord", t, [rows[0], rows[0]] + rows[1:], {c: [v1, v2] + [v1] * len(rows[1:])}]
     return ["BulkUpdateRecord", t, rows, {c: [v1, v2][:len(rows)]}]
   if kind == "RemoveColumn":
     return ["RemoveColumn", t, c]
